@@ -7,6 +7,7 @@ import Flumine.DriverSim
 import Flumine.DriverWorld
 import Flumine.DriverRef
 import Flumine.DriverMerge
+import Flumine.DriverDispatch
 open Flumine Flumine.Proto
 
 def parseLadder? (s : String) : Option LadderDef :=
@@ -105,6 +106,8 @@ def handlePacks (toks : List String) : Option String := do
 def handle (toks : List String) : String :=
   match toks with
   | "packs" :: _ => (handlePacks toks).getD "bad-op"
+  | "dispatch" :: _ => (DriverDispatch.handle toks).getD "bad-op"
+  | "dispatch.close" :: _ => (DriverDispatch.handle toks).getD "bad-op"
   | "merge.run" :: _ => (DriverMerge.handle toks).getD "bad-op"
   | "merge.filter" :: _ => (DriverMerge.handle toks).getD "bad-op"
   | ["nearest", p] =>
